@@ -68,4 +68,20 @@ theorem mem_chunksAux {α} (n : Nat) : ∀ (f : Nat) (l c : List α), c ∈ chun
 
 theorem mem_chunks {α} (n : Nat) (l c : List α) (h : c ∈ chunks n l) : ∀ x ∈ c, x ∈ l := mem_chunksAux n _ l c h
 
+/-- splitting a list of length `n * k` into `n`-chunks and mapping each chunk by a function that is the
+identity on `n`-chunks gives the list back -/
+theorem flatMap_chunks_id {α} (n : Nat) (hn : 0 < n) (f : List α → List α) (hf : ∀ c, c.length = n → f c = c) :
+    ∀ (k : Nat) (l : List α), l.length = n * k → (chunks n l).flatMap f = l ∧ (chunks n l).length = k
+  | 0, l, hl => by
+    have : l = [] := List.eq_nil_of_length_eq_zero (by omega)
+    subst this; simp [chunks_nil]
+  | k+1, l, hl => by
+    have hk : n * (k+1) = n * k + n := Nat.mul_succ n k
+    obtain ⟨c, rest, hlc, hc, hr⟩ : ∃ c rest, l = c ++ rest ∧ c.length = n ∧ rest.length = n * k :=
+      ⟨l.take n, l.drop n, (List.take_append_drop n l).symm, by rw [List.length_take]; omega, by rw [List.length_drop]; omega⟩
+    subst hlc
+    obtain ⟨ih1, ih2⟩ := flatMap_chunks_id n hn f hf k rest hr
+    rw [chunks_append n hn _ _ hc]
+    simp [List.flatMap_cons, hf c hc, ih1, ih2]
+
 end Qrl
